@@ -11,7 +11,7 @@ from txdbus import interface, introspection, objects
 ACTIONS = {'Declare': ('iname', 'd', 'register'), 'ParseXml': ('ids', 'replace')}
 OBS = ['objs', 'known', 'result']
 NAMES = ('a', 'b')
-INAMES = ('t.A', 't.B')
+INAMES = ('t.A', 't.AB')
 BASE = 'MC_Introspect'
 NOM = {'p': False, 'ins': (), 'outs': ()}
 NOS = {'p': False, 'args': ()}
@@ -228,7 +228,9 @@ def trace_cfg(params=None):
     return ('CONSTANTS\n MNames <- cMNames\n INames <- cINames\n DefPool <- PoolHist\n MaxObjs = 50\n')
 
 
-TYPES = ['i', 's', 'as', '(s(yy))', 'a{sv}', 'aa{s(iv)}', 'v', '(ii)', 'ay', 'a(ss)', 'x', 'o', 'g', 'a{y(ai)}', 'd', 'b']
+TYPES = ['i', 's', 'as', '(s(yy))', 'a{sv}', 'aa{s(iv)}', 'v', '(ii)', 'ay', 'a(ss)', 'x', 'o', 'g', 'a{y(ai)}', 'd', 'b',
+         # containers next to each other inside a container
+         '((ii)(ss))', '(i(yy)(s)a{sv})', 'a{s((i)(s))}', '(a(ii)(i))']
 
 
 def rand_def(rng):
@@ -249,7 +251,7 @@ def record_random(rng, nsteps):
     for _ in range(nsteps):
         declared = [k for k, (o, dcl) in enumerate(drv.objs, 1) if dcl]
         if not declared or rng.random() < 0.45:
-            a = ('Declare', (rng.choice(['t.A', 't.B', 't.C', 't.D']), rand_def(rng), rng.random() < 0.6))
+            a = ('Declare', (rng.choice(['t.A', 't.AB', 't.C', 't.D']), rand_def(rng), rng.random() < 0.6))
         else:
             k = rng.choice([1, 1, 2, 3])
             ids = []
